@@ -176,6 +176,15 @@ CHECKS = {
         note=TB + "C08: open finding vmap-differing-rank (per-lane parameter shapes of differing rank raise or mis-pair); independence of lanes' draws is the sampler contract.",
         technique="Lean 4 proof (combinator corollaries + layout model) + differential correspondence against per-slice evaluation",
         design="§3 C08"),
+    "C13": dict(
+        text="Partial. Lean + Mathlib theorems: the documented parameterisations of flip, bernoulli(logits), categorical(logits), geometric (failures), "
+             "poisson, binomial, exponential(rate), uniform, normal normalise to 1 for every parameter value (10 of 24). Tie: for all 24 exported "
+             "distributions logpdf on parameter x support grids vs closed forms of the documented parameterisation / scipy, numeric normalisation, "
+             "seeded draws (scalar, sample_shape, vectorised) vs reference CDF/PMF (KS / chi-square, alpha=1e-6), shapes and dtypes, extreme logit "
+             "spreads, user-wrapped tfp_distribution / distribution.",
+        note=TB + "C13 (partial): sampler<->density agreement is statistical evidence; 14 distributions have no formal normalisation theorem; TFP's log_prob and samplers are trusted.",
+        technique="Lean 4 + Mathlib proof (normalisation of the spec densities) + differential/statistical correspondence for all 24 distributions",
+        design="§3 C13"),
 }
 
 NOT_YET = "check not built yet in this session (planned, see DESIGN.md §3/§6); not claimed"
